@@ -4,8 +4,8 @@
 //              {"e":"text","cs":[..],"s":[bytes from the encoders],"o":{observation}}
 //   --mode 1   random byte strings (well-formed pieces, truncations, overlong forms, surrogates, stray bytes)
 //              {"e":"bytes","s":[..],"pl":placement,"o":{..},"t":[partner],"tlo":[lower(partner)],"eq":0/1}
-//   --mode 2   exhaustive: every byte string of length --len L whose first byte is in shard --shard k/N of 0..255
-//              (bytes 1..255 elsewhere; 0 is the terminator).  --full 1: one "bytes" event per string;
+//   --mode 2   exhaustive: every byte string of length --len L whose first byte is in shard --shard k/N of 1..255, or in
+//              the list --first b,b,... (bytes 1..255 elsewhere; 0 is the terminator).  --full 1: one "bytes" event per string;
 //              otherwise one {"e":"agg",...} event per first byte: number of strings, maxima of (result size - bound),
 //              number of disagreements of equalsNocase with equality of the lower-cased forms
 // Every input is stored flush against the end of its allocation (c08_common.h), in all three String placements.
@@ -112,11 +112,19 @@ int main(int argc, char** argv)
 {
 	Args a(argc, argv);
 	int shardK = 0, shardN = 1, len = 3, full = 0;
+	std::set<int> first;
 	for (int i = 1; i + 1 < argc; i++)
 	{
 		if (!strcmp(argv[i], "--shard")) sscanf(argv[i + 1], "%d/%d", &shardK, &shardN);
 		else if (!strcmp(argv[i], "--len")) len = atoi(argv[i + 1]);
 		else if (!strcmp(argv[i], "--full")) full = atoi(argv[i + 1]);
+		else if (!strcmp(argv[i], "--first"))
+			for (const char* q = argv[i + 1]; *q;)
+			{
+				first.insert(atoi(q));
+				while (*q && *q != ',') q++;
+				if (*q) q++;
+			}
 	}
 	Rng rng(a.seed);
 	Log log(a.out);
@@ -157,7 +165,7 @@ int main(int argc, char** argv)
 		}
 		for (int b0 = 1; b0 <= 255; b0++)
 		{
-			if (b0 % shardN != shardK) continue;
+			if (first.empty() ? b0 % shardN != shardK : !first.count(b0)) continue;
 			long count = 0, neq = 0;
 			long mx[8] = { -1000, -1000, -1000, -1000, -1000, -1000, -1000, -1000 };
 			std::string s((size_t)len, (char)1);
